@@ -143,6 +143,26 @@ fn gen_string(dna: &[u8]) -> String {
 		250..=255 => s.push('.'),
 		244..=249 => s.insert(0, '.'),
 		240..=243 => s.push(' '),
+		// a valid-looking string inside a wrapper a lenient parser might strip
+		228..=239 => {
+			let (a, b) = [("\"", "\""), ("'", "'"), ("v", ""), ("V", ""), ("[", "]"), ("(", ")"), (" ", " "), ("\t", "\n"), ("=", ""), ("", "\0"), ("\u{feff}", ""), ("<", ">")][d.below(12)];
+			s = format!("{}{}{}", a, s, b);
+		}
+		// one very long component (error paths that echo or slice the offending text), with multi-byte
+		// characters at varying byte offsets
+		216..=227 => {
+			let lead = d.below(140);
+			let mut long = "7".repeat(lead);
+			long.push(['é', 'ポ', '😀', '٣'][d.below(4)]);
+			long.push_str(&"1".repeat(d.below(80)));
+			let k = d.below(3);
+			let mut parts: Vec<String> = s.split('.').map(|x| x.to_string()).collect();
+			while parts.len() < 3 {
+				parts.push("0".into());
+			}
+			parts[k] = long;
+			s = parts.join(".");
+		}
 		_ => {}
 	}
 	s
